@@ -11,7 +11,7 @@ from harness import e1, gen
 from harness.build import scratch_build, MachineryError
 from harness.common import Run, phash, load_known, VERIF
 
-FIXTURES = sorted(glob.glob(os.path.join(os.environ.get("VERIF_REPO", "/repo"), "tests/data/*.tjp")))
+FIXTURES = sorted(glob.glob(os.path.join((os.environ.get("VERIF_REPO") or "/repo"), "tests/data/*.tjp")))
 
 # profile name, quick count, thorough count
 PLAN = {
